@@ -233,16 +233,16 @@ Fixpoint insert_sorted (k : string) (v : json) (o : obj) : obj :=
       end
   end.
 
+(** a Go map built from the members in order (the last binding of a key wins), printed with sorted keys *)
+Definition sort_dedupe (o : obj) : obj :=
+  fold_left (fun acc kv => insert_sorted (fst kv) (snd kv) acc) o [].
+
 (** the value as Go holds it after decoding into interface{} and prints it again: objects are maps
     (last duplicate wins, keys sorted on output); recursively *)
 Fixpoint canon (j : json) : json :=
   match j with
   | JArr l => JArr (map canon l)
-  | JObj l => JObj ((fix go (l : list (string * json)) (acc : obj) : obj :=
-                       match l with
-                       | [] => acc
-                       | (k, v) :: r => go r (insert_sorted k (canon v) acc)
-                       end) l [])
+  | JObj l => JObj (sort_dedupe (map (fun kv => (fst kv, canon (snd kv))) l))
   | _ => j
   end.
 Definition canon_obj (o : obj) : obj :=
